@@ -35,30 +35,35 @@ Qed.
 Lemma in_must c m cs : In (c, m) (must cs) -> m = Must.
 Proof. unfold must. intros H. apply in_map_iff in H. destruct H as (c' & E & _). now inversion E. Qed.
 
-Lemma only_trash_renames_ignored c :
-  (forall v s o, In (c, Ignore) (fst (op_prog v s o)) -> exists x, c = CRename (NSst x) (NTrashSst x)) /\
-  (forall s, In (c, Ignore) (fst (fst (open_prog s))) -> exists x, c = CRename (NSst x) (NTrashSst x)).
+Lemma only_trash_renames_ignored c m : dropped m ->
+  (forall v s o, In (c, m) (fst (op_prog v s o)) -> exists x, c = CRename (NSst x) (NTrashSst x)) /\
+  (forall s, In (c, m) (fst (fst (open_prog s))) -> exists x, c = CRename (NSst x) (NTrashSst x)).
 Proof.
+  intros Hm.
+  assert (Hmust : forall cs, In (c, m) (must cs) -> False).
+  { intros cs H. apply in_must in H. destruct Hm; subst; discriminate. }
   split.
-  - intros v s [b| |ins outs]; cbn [op_prog fst].
-    + unfold write_prog. intros H. apply in_must in H. discriminate.
-    + unfold flush_prog. destruct (exists_name _ s); cbn [fst]; intros H; apply in_must in H; discriminate.
+  - intros v s [b| |gc ins outs]; cbn [op_prog fst].
+    + unfold write_prog. intros H. now apply Hmust in H.
+    + unfold flush_prog. destruct (exists_name _ s); cbn [fst]; intros H; now apply Hmust in H.
     + unfold compact_prog. rewrite !in_app_iff.
-      intros [H|[H|[H|[H|[H|[H|H]]]]]].
-      * destruct (exists_name _ s); [apply in_must in H; discriminate|destruct H].
-      * apply in_must in H. discriminate.
-      * apply in_must in H. discriminate.
-      * apply in_map_iff in H. destruct H as (ix & E & _). inversion E.
-      * destruct H as [E|[E|[E|[]]]]; inversion E.
-      * apply in_map_iff in H. destruct H as (x & E & _). inversion E. eauto.
-      * apply in_must in H. discriminate.
+      assert (Hret : In (c, m) (map (fun x => (CRename (NSst x) (NTrashSst x), Retire)) (filter (fun x => negb (mem_sname x outs)) ins)) ->
+                     exists x, c = CRename (NSst x) (NTrashSst x)).
+      { intros H. apply in_map_iff in H. destruct H as (x & E & _). inversion E. eauto. }
+      intros [H|[H|[H|[H|[H|H]]]]].
+      * destruct (exists_name _ s); [now apply Hmust in H|destruct H].
+      * now apply Hmust in H.
+      * now apply Hmust in H.
+      * apply in_map_iff in H. destruct H as (ix & E & _). inversion E. destruct Hm; subst; discriminate.
+      * destruct H as [E|[E|[E|[]]]]; inversion E; destruct Hm; subst; discriminate.
+      * destruct gc; rewrite in_app_iff in H; destruct H as [H|H]; auto; now apply Hmust in H.
   - intros s. unfold open_prog.
     destruct (recover_calls _ _) as [c3 rec]. cbn [fst]. rewrite !in_app_iff.
     intros [H|[H|H]].
-    + apply in_must in H. discriminate.
+    + now apply Hmust in H.
     + apply in_map_iff in H. destruct H as (c' & E & Hc). inversion E; subst c'.
       rewrite orphan_calls_map in Hc. apply in_map_iff in Hc. destruct Hc as (x & <- & _). eauto.
-    + apply in_must in H. discriminate.
+    + now apply Hmust in H.
 Qed.
 
 (* ------------------------------------------------------------------ where a faulted operation stops *)
@@ -69,16 +74,16 @@ Lemma fault_stops_at_prefix p : forall k s, run p s = (fst (run p s), None) ->
   fst (run_prog p (Some k) O s None) = prefix_state p k s.
 Proof.
   induction p as [|[c m] p IH]; intros k s Hrun Hk Hm; [cbn in Hk; lia|].
-  unfold run in Hrun. unfold prefix_state. cbn [run_prog firstn] in *. destruct k as [|k].
+  pose proof (run_ok_tail c m p s Hrun) as Htail. unfold exec_or in Htail.
+  unfold prefix_state. destruct k as [|k].
   - cbn [nth snd] in Hm. cbn [firstn run_prog]. destruct Hm as [->| ->]; reflexivity.
   - cbn [nth] in Hm. cbn [length] in Hk. cbn [firstn run_prog].
+    unfold run in Hrun. cbn [run_prog] in Hrun.
     destruct (exec c s) as [s1|] eqn:E1.
-    + apply IH; [|lia|exact Hm]. unfold run. destruct (run_prog p None O s1 None) as [t [e|]] eqn:R; [cbn in Hrun; discriminate|reflexivity].
-    + destruct m.
+    + destruct m; (apply IH; [exact Htail|lia|exact Hm]).
+    + destruct m; try (apply IH; [exact Htail|lia|exact Hm]).
       * reflexivity.
-      * apply IH; [|lia|exact Hm]. unfold run. destruct (run_prog p None O s None) as [t [e|]] eqn:R; [cbn in Hrun; discriminate|reflexivity].
-      * apply IH; [|lia|exact Hm]. unfold run. destruct (run_prog p None O s None) as [t [e|]] eqn:R; [cbn in Hrun; discriminate|reflexivity].
-      * exfalso. pose proof (deferred_stays p None n s EIo) as H. destruct (run_prog p None n s (Some EIo)) as [t [e|]]; [cbn in Hrun; discriminate|now apply H].
+      * exfalso. pose proof (deferred_stays p None n s EIo) as H. rewrite Hrun in H. now apply H.
 Qed.
 
 Lemma fault_leaves_recoverable s v o k : Run s v -> accepted v o ->
